@@ -9,9 +9,13 @@
      its bare name - separately for sub-circuits (spicetype SUBCKT) and for SPICE models (every other spicetype).
      Two Modules with one flat name, or two different instantiated ExternalModules with one name in one of the two
      spaces, are rejected ("doubly defined" / "Conflicting ExternalModule definitions") - a documented limit of the
-     netlist languages, not of the package (recorded findings of C06: such packages ARE returned by to_proto). *)
+     netlist languages, not of the package (recorded findings of C06: such packages ARE returned by to_proto).
+   * the netlisters demand the parameters that vlsirtools.primitives declares without a default (table regenerated into
+     Hdl21Gen.C06VlsirPrims) of every instance of a `vlsir.primitives` element: "Required parameter ... not specified".
+     Hdl21's ideal sources declare them Optional, so Vpulse() is exported without them (recorded finding of C06). *)
 Require Import Hdl21.Base.PyInt Hdl21.Spec.PySlice Hdl21.Model.Slice Hdl21.Model.Resolve Hdl21.Base.Design
                Hdl21.Base.Package Hdl21.Spec.WfDesign Hdl21.Spec.PkgWf.
+Require Import Hdl21Gen.C06VlsirPrims.
 From Coq Require Import String Ascii.
 
 (* ---- parameters ---- *)
@@ -65,6 +69,20 @@ Definition flat_exts_ok (p : package) : bool :=
            (String.eqb (px_domain x) (px_domain y))) rs) rs.
 
 Definition netlist_flat_ok (p : package) : bool := flat_mods_ok p && flat_exts_ok p.
+
+(* ---- required parameters of vlsir.primitives elements ---- *)
+Definition prim_params_ok (p : package) : bool :=
+  forallb (fun m => forallb (fun i =>
+    match pi_ref i with
+    | PExt dom nm =>
+        if String.eqb dom "vlsir.primitives"
+        then match assoc nm vlsir_prim_required with
+             | Some req => forallb (fun k => existsb (String.eqb k) (map fst (pi_params i))) req
+             | None => true
+             end
+        else true
+    | PLocal _ => true
+    end) (pm_insts m)) (pk_mods p).
 
 (* the full executable statement of C06 for one package: closed and self-consistent, parameters included *)
 Definition wf_pkg_full (prims : list pext) (p : package) : result unit :=
